@@ -4,5 +4,5 @@ package poolscript
 
 import "github.com/btcsuite/btcd/wire"
 
-// VerifHasAnnex exposes hasAnnex to the verification harness.
-func VerifHasAnnex(w wire.TxWitness) bool { return hasAnnex(w) }
+// VerifC04HasAnnex exposes hasAnnex to the verification harness.
+func VerifC04HasAnnex(w wire.TxWitness) bool { return hasAnnex(w) }
